@@ -346,16 +346,16 @@ def same_second_fee_lots(rng: random.Random, asset: str = "AAA") -> Dict[str, An
     so the result may not depend on the order of the rows in the sheet."""
     b = HB(asset=asset, exchanges=EXCHANGES[:2], holders=HOLDERS[:2])
     t = T(rng.randint(2016, 2022), rng.randint(1, 12), rng.randint(1, 28), rng.randint(0, 23), rng.randint(0, 59), rng.randint(0, 59))
-    b.acquire(t - timedelta(days=rng.randint(30, 400)), rng.choice((1, 2)), rng.randint(50, 500), ho="Alice")
+    b.acquire(t - timedelta(days=rng.randint(30, 400)), rng.choice((1, 2)), rng.randint(50, 500), ho="Pro_Bob")
     micros = sorted(rng.sample(range(1, 999999), rng.randint(2, 4)))
     held = Decimal(0)
     for micro in micros:
         amount = Decimal(rng.choice((1, 2, 4)))
-        b.acquire(t + timedelta(microseconds=micro), amount, rng.randint(50, 900), ho="Alice", cfee=rng.choice(("0.01", "0.02", "0.001")))
+        b.acquire(t + timedelta(microseconds=micro), amount, rng.randint(50, 900), ho="Pro_Bob", cfee=rng.choice(("0.01", "0.02", "0.001")))
         held += amount
     later = t + timedelta(seconds=1, microseconds=rng.randint(0, 500000))
-    b.dispose(later, rng.choice(("0.5", "1", "1.5")), rng.randint(50, 900), ho="Alice", ttype=rng.choice(("SELL", "GIFT")))
-    b.dispose(later + timedelta(days=rng.randint(1, 500)), rng.choice(("0.5", "1")), rng.randint(50, 900), ho="Alice")
+    b.dispose(later, rng.choice(("0.5", "1", "1.5")), rng.randint(50, 900), ho="Pro_Bob", ttype=rng.choice(("SELL", "GIFT")))
+    b.dispose(later + timedelta(days=rng.randint(1, 500)), rng.choice(("0.5", "1")), rng.randint(50, 900), ho="Pro_Bob")
     return b.done(rng, shuffle=True)
 
 
@@ -373,8 +373,8 @@ def same_instant_transfer_then_sale(rng: random.Random, asset: str = "AAA") -> D
     offset_a, offset_b = (0, 0) if rng.random() < 0.6 else rng.sample(list(OFFSETS), 2)
     sent = Decimal(rng.choice((5, 6, 8)))
     fee = Decimal(rng.choice(("0", "0.01")))
-    b.move(day, sent, sent - fee, rng.randint(50, 500), ("Coinbase", holder), ("Kraken", holder), offset=offset_a)
-    b.dispose(day, rng.choice((2, 3, sent - fee)), rng.randint(50, 500), ex="Kraken", ho=holder, offset=offset_b, ttype=rng.choice(("SELL", "GIFT", "DONATE")))
+    b.move(day, sent, sent - fee, rng.randint(50, 500), ("Coinbase", holder), ("Coinbase_Pro", holder), offset=offset_a)
+    b.dispose(day, rng.choice((2, 3, sent - fee)), rng.randint(50, 500), ex="Coinbase_Pro", ho=holder, offset=offset_b, ttype=rng.choice(("SELL", "GIFT", "DONATE")))
     if rng.random() < 0.5:
         b.dispose(day + timedelta(days=30), 1, rng.randint(50, 500), ex="Coinbase", ho=holder)
     return b.done(rng, shuffle=rng.random() < 0.7)
